@@ -1005,5 +1005,6 @@ func init() {
 	runners["FLOAT"] = runFloat
 	runners["MERGE"] = runMerge
 	runners["REG"] = runReg
+	runners["GREG"] = runReg // the same run, judged against the registry functions as translated
 	runners["REGC"] = runRegC
 }
